@@ -685,16 +685,16 @@ class TokeniserDifferential(BoundedCheck):
 
         def on_alarm(signum, frame):
             raise _Slow()
-        old = signal.signal(signal.SIGALRM, on_alarm)
-        signal.setitimer(signal.ITIMER_REAL, 2.0)
+        old = signal.signal(signal.SIGVTALRM, on_alarm)          # 2 s of this process's processor time (not wall-clock: the machine may be busy)
+        signal.setitimer(signal.ITIMER_VIRTUAL, 2.0)
         try:
             got = _tokens(fp.term_re, text)
         except _Slow:
-            out.append(Violation('tokenising a short text terminates promptly (parse_model terminates for every input)', 'parser.tokeniser-slow', case, '< 2 s', 'interrupted after 2 s'))
+            out.append(Violation('tokenising a short text terminates promptly (parse_model terminates for every input)', 'parser.tokeniser-slow', case, '< 2 s of processor time', 'interrupted after 2 s of processor time'))
             return out
         finally:
-            signal.setitimer(signal.ITIMER_REAL, 0)
-            signal.signal(signal.SIGALRM, old)
+            signal.setitimer(signal.ITIMER_VIRTUAL, 0)
+            signal.signal(signal.SIGVTALRM, old)
         want = _tokens(REFERENCE_TERM_RE, text)
         if got != want:
             out.append(Violation('term_re cuts the text into the terms of the documented grammar (kind, name, index text)', 'parser.tokeniser-differs', case,
